@@ -213,11 +213,11 @@ class TemporalDictionaryEnsemble(BaseClassifier):
 
         if self.time_limit > 0:
             self.n_parameter_samples = 0
-        if self.min_window > max_window + 1:
+        if self.min_window > max_window:
             raise ValueError(
                 f"Error in TemporalDictionaryEnsemble, min_window ="
                 f"{self.min_window} is bigger"
-                f" than max_window ={self.max_window},"
+                f" than max_window ={max_window},"
                 f" series length is {self.series_length}"
                 f" try set min_window to be smaller than series length in "
                 f"the constructor, but the classifier may not work at "
@@ -268,6 +268,9 @@ class TemporalDictionaryEnsemble(BaseClassifier):
                 tde, y_subsample, subsample_size, lowest_acc
             )
             weight = math.pow(tde.accuracy, 4)
+            if weight == 0:
+                # keep a vanishing vote so that the ensemble weights never sum to 0
+                weight = 0.000000001
 
             if num_classifiers < self.max_ensemble_size:
                 if tde.accuracy < lowest_acc:
